@@ -13,7 +13,7 @@ import ast
 from ..engine import rule
 from ..model import Undecided
 from ..cfg import dotted, call_name, is_call, simple_name, unparse, const_value, contains, enclosing
-from ..flow import Canon, Defs, depends
+from ..flow import Canon, expand, Defs, depends
 from ..decide import table, ret_kind
 from ..util import keyword, returns_of, calls_in, inside, order_key
 
@@ -290,6 +290,29 @@ def c20f(ctx):
     ok = bool(tc) and all(unparse(keyword(x, 'cacheable') or ast.Constant(value=None)) == '%s.cacheable' % sm.params[0] for x in tc)
     ctx.check(ok, 'split_meta_tiles:flag-propagated', 'tiles cut from a meta tile inherit its cacheable flag', sm,
               fail='tiles cut from an uncacheable meta tile are marked cacheable')
+    # the meta tile creators return *new* tile objects; the manager copies them into the collection it hands to the services:
+    # wherever the image of a created tile is copied, its cacheable mark is copied with it
+    lt = ctx.fn(T + ':TileManager._load_tile_coords')
+    ldefs = Defs(lt.node)
+    n = 0
+    for lp in [l for l in lt.walk() if isinstance(l, ast.For) and isinstance(l.target, ast.Name)]:
+        created = any(contains(e, lambda x: is_call(x, 'create_tiles')) for e in expand(lp.iter, ldefs))
+        if not created:
+            continue
+        tv = lp.target.id
+        for st in [x for x in ast.walk(lp) if isinstance(x, ast.Assign) and isinstance(x.targets[0], ast.Attribute) and x.targets[0].attr == 'source'
+                   and unparse(x.value) == tv + '.source']:
+            n += 1
+            dst = unparse(st.targets[0].value)
+            blk = [b for b in ast.walk(lp) if isinstance(b, (ast.If, ast.For)) and st in getattr(b, 'body', [])] or [lp]
+            flag = [x for x in blk[0].body if isinstance(x, ast.Assign) and unparse(x.targets[0]) == dst + '.cacheable' and
+                    contains(x.value, lambda y: isinstance(y, ast.Attribute) and y.attr == 'cacheable' and unparse(y.value) == tv)]
+            ctx.check(bool(flag), 'TileManager._load_tile_coords:flag-copied-with-source', 'the cacheable mark of a created tile is copied together with its image',
+                      lt, st, fail='the image of a created tile is copied into the returned collection without its cacheable mark: on the meta tile '
+                      'paths an uncached error image (on_error ... cache: false) reaches the tile services as cacheable and is sent with public '
+                      'cache headers and an ETag instead of no-store')
+    if not n:
+        ctx.bad('TileManager._load_tile_coords:flag-copied-with-source', 'the copy of created tiles into the returned collection was not found', lt)
 
 
 @rule('C20.g', floor=2)
